@@ -19,18 +19,32 @@ build() {
     fi
 }
 
+build_fuzz() {
+    # libFuzzer targets (thorough tiers of C03 C04 C06 C07); they depend on the harness library and
+    # through it on /repo's working tree, so this also rebuilds from the current tree
+    cp -f "$H/Cargo.lock" /verif/fuzz/Cargo.lock 2>/dev/null
+    (cd /verif/fuzz && cargo +nightly fuzz build -s none --fuzz-dir . >/verif/fuzz/build.log 2>&1)
+    local rc=$?
+    if [ $rc -ne 0 ]; then
+        echo "FUZZ BUILD FAILED (inconclusive); see /verif/fuzz/build.log" >&2
+        tail -30 /verif/fuzz/build.log >&2
+        exit 2
+    fi
+}
+
 case "$1" in
 --setup)
     build
-    if [ -d /verif/fuzz ]; then
-        (cd /verif/fuzz && cargo +nightly fuzz build >/verif/fuzz/build.log 2>&1) || echo "fuzz build failed (thorough fuzz tiers will be skipped)" >&2
-    fi
+    build_fuzz
     exit 0
     ;;
 C[0-9][0-9])
     build
     id=$1
     shift
+    if [ "$1" = thorough ]; then
+        case "$id" in C03|C04|C06|C07) build_fuzz ;; esac
+    fi
     WATCHDOG=${VERIF_WATCHDOG:-}
     if [ -z "$WATCHDOG" ]; then
         case "$1" in quick) WATCHDOG=1500 ;; thorough) WATCHDOG=14400 ;; *) WATCHDOG=600 ;; esac
